@@ -144,6 +144,7 @@ func (c13Engine) Gen(seed uint64, idx int, tier string) interface{} {
 		sc.Env = healthyEnv(r)
 		cfg := GenCfg{Budget: r.Range(8, 44), Calls: true, Dyn: true, Failing: true, Strings: true, Closures: r.Chance(3, 4), Maps: r.Chance(1, 2),
 			Objects: true, ShortPred: r.Chance(1, 2), NilSafe: r.Chance(1, 3), SliceCall: true, ConstFns: r.Chance(1, 3), AnyUsable: true}
+		cfg.MapRep = sc.Rep == RepMap
 		g := NewGen(r.Fork(), cfg)
 		sc.Tree = genRoot(g, r)
 		if r.Chance(1, 2) {
@@ -224,6 +225,28 @@ func opSpanOK(pr *Printed, n *N, line, col int) (bool, string) {
 	rec(n)
 	if bad != nil {
 		return false, fmt.Sprintf("the location (rune offset %d) lies inside a nested operation %q, not the failing one", off, string([]rune(pr.Src)[bad.start:bad.end]))
+	}
+	// Positions are token positions (the first character of a token): the
+	// location must be the start of one of the failing operation's own tokens,
+	// or of one of its leaf operands.
+	ok = false
+	for _, t := range n.toks {
+		if t == off {
+			ok = true
+		}
+	}
+	for _, k := range n.C {
+		switch k.K {
+		case "int", "bool", "str", "nil", "id", "ptr":
+			for _, t := range k.toks {
+				if t == off {
+					ok = true
+				}
+			}
+		}
+	}
+	if !ok {
+		return false, fmt.Sprintf("the location (rune offset %d) is inside the failing operation but is not the first character of any of its tokens (%v)", off, n.toks)
 	}
 	return true, ""
 }
